@@ -1,9 +1,15 @@
 """C02 — fit_transform(X) equals fit(X).transform(X), and fit returns the estimator.
-Proof gate: Properties/C02.v (SVD round trip, projection, CFC scaling; the BPE / LZ / vocabulary halves are proved
-with their kernels in C09 / C16 / C05).  Search: every estimator of the zoo x random non-default parameter settings,
-fit_transform(X) vs fit(X).transform(X) on deep copies of the same data, `fit(X) is est`."""
+Proof gate: Properties/C02.v (SVD round trip, projection, CFC scaling), C02_two_paths.v (BPE, LZ), C02_cooc.v (the three
+hand-duplicated pipelines of the co-occurrence family: re-indexing with the learned dictionary is idempotent in delete
+and mask mode, hence fit_transform = fit = transform on the training data for every driver, pruning, kernel and EM
+setting) and C02_ngram_vectorizer.v (NgramVectorizer with mask_string / nullify_mask / pruning).
+Correspondence: harness/c02_model.py evaluates the Coq models of NgramVectorizer and TokenCooccurrenceVectorizer
+(Model/K02_TwoPathsExec.v) and compares them with every code path of the implementation.
+Search: every estimator of the zoo x parameter settings (the discrete ones enumerated on consecutive seeds, see
+harness/impl/zoo.py grid()), fit_transform(X) vs fit(X).transform(X) on deep copies of the same data, `fit(X) is est`."""
 from concurrent.futures import ThreadPoolExecutor
 from . import common as C
+from . import c02_model
 
 ESTIMATORS = ["TokenCooccurrenceVectorizer", "TimedTokenCooccurrenceVectorizer", "MultiSetCooccurrenceVectorizer",
               "NgramCooccurrenceVectorizer", "LabelledTreeCooccurrenceVectorizer", "NgramVectorizer", "SkipgramVectorizer",
@@ -18,6 +24,25 @@ GROUPS = [["TokenCooccurrenceVectorizer"], ["TimedTokenCooccurrenceVectorizer"],
           ["LZCompressionVectorizer", "BytePairEncodingVectorizer", "InformationWeightTransformer", "RowDenoisingTransformer"],
           ["WassersteinVectorizer"], ["SinkhornVectorizer", "ApproximateWassersteinVectorizer"],
           ["CountFeatureCompressionTransformer", "SlidingWindowTransformer", "SequentialDifferenceTransformer"]]
+# sizes of the enumerated grids of harness/impl/zoo.py (COOC_GRID: mask setting x pruning, per driver; NGRAM_GRID:
+# size x behaviour x mask setting x pruning): that many CONSECUTIVE seeds cover the grid, whatever the first seed is
+COOC = {"TokenCooccurrenceVectorizer", "TimedTokenCooccurrenceVectorizer", "MultiSetCooccurrenceVectorizer",
+        "NgramCooccurrenceVectorizer"}
+COOC_GRID, COOC_EM, NGRAM_GRID = 12, 6, 36
+
+
+def n_cases(name, quick):
+    """Cases run with the compiled kernels (a fresh numba specialisation per co-occurrence case: 5-15 s each)."""
+    per = 2 if quick else 25
+    if name == "NgramVectorizer":
+        return NGRAM_GRID if quick else 3 * NGRAM_GRID
+    return per if name in COOC or name == "DistributionVectorizer" else 3 * per
+
+
+def n_interpreted(quick):
+    """Per co-occurrence driver, run under NUMBA_DISABLE_JIT=1 (python semantics of the same source, ms per case):
+    the full mask x pruning x (n_iter, epsilon) product."""
+    return COOC_GRID * COOC_EM * (1 if quick else 3)
 
 
 def run(ctx, replay=None):
@@ -25,32 +50,61 @@ def run(ctx, replay=None):
     import os
     extra = sorted(os.path.basename(p)[:-2] for p in glob.glob(os.path.join(C.COQ, "theories", "Properties", "C02_*.v")))
     C.run_gate(ctx, extra_props=extra)
-    per = 2 if ctx.quick else 25
-    if replay:
+    model_only = None
+    if replay and isinstance(replay.get("case"), dict):
+        model_only, groups = replay["case"], []
+    elif replay:
         groups = [[tuple(replay["case"])]]
     else:
-        heavy = {"TokenCooccurrenceVectorizer", "TimedTokenCooccurrenceVectorizer", "MultiSetCooccurrenceVectorizer",
-                 "NgramCooccurrenceVectorizer", "DistributionVectorizer"}
         groups = [[(n, base + i) for n in g for base in [1000 * ctx.rng.randrange(1000)]
-                   for i in range(per if n in heavy else 3 * per)] for g in GROUPS]
-    with ThreadPoolExecutor(max_workers=10) as ex:
-        futs = [ex.submit(C.run_impl, "c02", [list(c) for c in g], None, 2400) for g in groups]
+                   for i in range(n_cases(n, ctx.quick))] for g in GROUPS]
+        # the interpreted grid walk starts at the first compiled seed of the driver (so the compiled cases are a prefix)
+        groups += [[(g[0][0], g[0][1] + i) for i in range(n_interpreted(ctx.quick))] for g in groups[:4]]
+    n_compiled_groups = len(GROUPS) if not replay else len(groups)
+    with ThreadPoolExecutor(max_workers=16) as ex:
+        futs = [ex.submit(C.run_impl, "c02", [list(c) for c in g], None if k < n_compiled_groups else {"NUMBA_DISABLE_JIT": "1"}, 2400)
+                for k, g in enumerate(groups)]
+        if model_only is not None or not replay:
+            f_model = ex.submit(c02_model.run, ctx, 96 if ctx.quick else 480, 54 if ctx.quick else 270, model_only)
+            _, deferred = f_model.result()
+        else:
+            deferred = None
         results = [f.result() for f in futs]
-    ctx.coverage["rule"] = ("zoo case = (estimator, seed) -> random non-default parameters and small valid training data; "
-                            "non-trivial = both paths returned an output with at least one non-zero entry / item")
+    if deferred:
+        deferred.emit(ctx, "oracle")       # property-level failures of the model cases first
+    ctx.coverage["rule"] = ("zoo case = (estimator, seed) -> parameters (discrete ones enumerated on consecutive seeds) and small "
+                            "valid training data; model case = seeded parameters + integer-token corpora evaluated in Coq and on "
+                            "the implementation; non-trivial = the paths returned an output with at least one non-zero entry / item")
     ctx.assumptions += ["outputs compared exactly for count / encoding outputs, 1e-5..1e-9 relative for float outputs "
                         "(float32 accumulation, SVD) as set per estimator in harness/impl/zoo.py",
                         "SVD clause: zoo picks n_components >= rank of the uncompressed representation",
-                        "inputs are deep-copied per call so that C13 side effects cannot masquerade as C02 failures"]
-    for g, (res, info) in zip(groups, results):
+                        "inputs are deep-copied per call so that C13 side effects cannot masquerade as C02 failures",
+                        "when fit_transform(X) and fit(X) raise the same exception class (e.g. ValueError: every token pruned) "
+                        "the two paths agree; the case is counted as trivial",
+                        "model correspondence: integer tokens and an integer mask 'string'; fixed windows, n_iter = 0, "
+                        "epsilon = 0 for the co-occurrence model (K04's EM is tied to the code under C10)"]
+    grid_seen = {}
+    compiled_seen = set(c for g in groups[:n_compiled_groups] for c in g)
+    for gi, (g, (res, info)) in enumerate(zip(groups, results)):
         res = res or []
         if len(res) != len(g):
             ctx.report("implementation child died (rc=%s) on case %s: %s" % (info["rc"], g[len(res)], info["tail"][-500:]),
                        {"stage": "impl-crash", "case": list(g[len(res)])}, found_input=True)
+        interp = gi >= n_compiled_groups
+        ctx.coverage["oracle"].setdefault("child_wall_s", {})[g[0][0] + (" (interpreted)" if interp else "")] = info.get("wall_s")
         for (name, seed), r in zip(g, res):
+            if interp and (name, seed) in compiled_seen:
+                continue            # already judged with the compiled kernels
             ok = not r.get("err") and not r.get("diff") and r.get("fit_returns_self") and not r.get("refit_diff")
-            ctx.count_case([name, seed], nontrivial=bool(r.get("nnz")), kind=name)
-            if ok:
+            ctx.count_case([name, seed], nontrivial=bool(r.get("nnz")), kind=name + (" (NUMBA_DISABLE_JIT=1)" if interp else ""))
+            if name in COOC or name == "NgramVectorizer":
+                p = r.get("params", {})
+                key = "%s mask=%s nullify=%s prune=%s" % (name, "mask_string" in p, p.get("nullify_mask") == "True",
+                                                          "+".join(sorted(q for q in p if "occurrences" in q or "unique" in q)) or "none")
+                grid_seen[key] = grid_seen.get(key, 0) + 1
+            if ok or r.get("both_raise"):
+                if r.get("both_raise"):
+                    ctx.dist("both_paths_raise:%s:%s" % (name, r["both_raise"]))
                 continue
             if r.get("err"):
                 what = "%s(seed %d, %s): %s: %s" % (name, seed, r.get("params"), r["err"], r.get("msg"))
@@ -62,6 +116,11 @@ def run(ctx, replay=None):
             else:
                 what = "%s(seed %d, %s): fit_transform(X) != fit(X).transform(X): %s" % (name, seed, r.get("params"), r["diff"])
             ctx.report(what, {"stage": "oracle", "case": [name, seed], "result": r})
-    ctx.coverage["oracle"] = {"estimators": len(ESTIMATORS), "cases_per_estimator": per}
+    if deferred:
+        deferred.emit(ctx, "corr")         # model/implementation differences last (no failing input of the property)
+    ctx.coverage["oracle"].update({"estimators": len(ESTIMATORS),
+                                   "cases_per_estimator": {n: n_cases(n, ctx.quick) for n in ESTIMATORS},
+                                   "interpreted_cases_per_cooccurrence_driver": n_interpreted(ctx.quick),
+                                   "mask_x_pruning_grid": grid_seen})
     C.gate_violation(ctx)
     return ctx.finish("proof")
